@@ -36,9 +36,12 @@ type Variant struct {
 }
 
 var DefaultVariant = Variant{Name: "linux/amd64"}
+// The 32-bit variant planned in DESIGN.md is not loaded: the pinned tree does not type-check under
+// GOARCH=386 (configuration/encoder.go assigns math.MaxUint64 to a uint, rules_event_rcv.go compares
+// len() with 0xffffffff), so 32-bit hosts are outside what the repository supports.
 var ThoroughVariants = []Variant{
 	{Name: "linux/amd64,purego", Tags: "purego"},
-	{Name: "linux/386", Env: []string{"GOARCH=386"}},
+	{Name: "linux/arm64", Env: []string{"GOARCH=arm64"}},
 }
 
 // Program is the resolved program of one build variant.
